@@ -6,7 +6,8 @@ def check(tier, seed, only=None):
     rep = evidence.Report("C11", tier, seed)
     # rejection paths of the family functions: conditional assigns clause (rejected: ctx->error only),
     # return value == ctx, error code by precedence; accepted: error == NONE
-    p_ctx_common.run_ctx(rep, tier, [("submit", "proto", "per_param", "per_param")], only)
+    p_ctx_common.run_ctx(rep, tier, [("submit", "proto", "per_param", "per_param")], only,
+                         extra=p_ctx_common.base_jobs(tier, ("submit",)))
     # the isal_*_ctx_mgr_submit wrappers: a valid call returns 0 whatever stale error another
     # returned context carries; a rejection is mapped to its documented code
     p_wrap_common.run_wrappers(rep, fips=False, legacy=False, only=only,
